@@ -263,11 +263,12 @@ def _tag(b):
 
 
 def run(tier, seed):
-    alphas = [0.01, 0.05, 0.5] + ([1e-6, 0.999] if tier == 'thorough' else [])
+    # levels down to far below the spacing of doubles around 1 (1 - alpha/2 == 1.0): 'all significance levels in (0,1)'
+    alphas = [0.01, 0.05, 0.5, 1e-18] + ([1e-6, 0.999, 3e-16, 1e-13] if tier == 'thorough' else [])
     ndfs = [None, 1, 2, 30] + ([1000] if tier == 'thorough' else [])
     jobs = []
     for alpha, ndf in itertools.product(alphas, ndfs):
-        do_shapes = tier == 'thorough' or (alpha, ndf) in ((0.01, None), (0.05, 30), (0.5, 1))
+        do_shapes = tier == 'thorough' or (alpha, ndf) in ((0.01, None), (0.05, 30), (0.5, 1), (1e-18, None))
         jobs.append((tier, alpha, ndf, do_shapes))
     return pool.pmap(job, jobs, seed)
 
